@@ -652,7 +652,11 @@ func (s *Sim) loop() {
 		t.runnable = false
 		s.Step++
 		s.cur = t
-		s.logf("RUN t%d@%d %s #%d c%d", t.ID, t.Node, t.parkedAt, s.tapePos, len(cands))
+		if t.parkedAt == "start" && s.traceOn {
+			s.logf("RUN t%d@%d start[%s] #%d c%d", t.ID, t.Node, t.Label, s.tapePos, len(cands))
+		} else {
+			s.logf("RUN t%d@%d %s #%d c%d", t.ID, t.Node, t.parkedAt, s.tapePos, len(cands))
+		}
 		s.ilHash = s.ilHash*1099511628211 ^ uint64(t.ID)<<8 ^ uint64(len(t.parkedAt))
 		for i := 0; i < len(t.parkedAt) && i < 24; i++ {
 			s.ilHash = s.ilHash*31 + uint64(t.parkedAt[i])
